@@ -64,6 +64,12 @@ def series(kind, n, seed):
     elif kind == 'tiny':
         # (alt/BTC price levels: window ranges go below 1e-8, the default absolute tolerance of np.isclose)
         c = gen.candles({'seed': seed, 'n': n, 'vol': 0.01, 'start': rng.choice([2.3e-6, 4.1e-8]), 'zero_vol_p': 0.0})
+    elif kind == 'volspike':
+        # one candle early in the series trades an enormous volume (a listing candle, a data glitch): every running total
+        # that is not taken per window carries its rounding error from then on
+        c = gen.candles({'seed': seed, 'n': n, 'vol': 0.006, 'start': 100.0, 'zero_vol_p': 0.0})
+        c[min(n - 2, rng.choice([5, 20, 40])), 5] = rng.choice([2e14, 5e13])
+        return c
     elif kind == 'flattail':
         # a market that stops trading: the series ends with a long run of flat zero-volume candles at the last close (windows
         # with zero range and zero volume at the END, where single-value results are taken); one more flat run in the middle
